@@ -41,3 +41,4 @@ pub fn g512(h: &mut Groestl512) -> (&mut u64, [u8; 128], usize) {
 pub fn g512_set_cv(h: &mut Groestl512, cv: &[u8; 128]) { h.compressor.cv = x8_from(cv); }
 pub fn g224(h: &mut Groestl224) -> &mut Groestl256 { &mut h.0 }
 pub fn g384(h: &mut Groestl384) -> &mut Groestl512 { &mut h.0 }
+pub use crate::compressor::verif_incrate as cc;
